@@ -36,7 +36,7 @@ class BooleanNode(BaseNode):
     def parse(self, env):
         if self.value_fn: # Process function
              with FunctionSolver(env) as s:
-                self.value_raw = s.solve(self.value_fn)
+                self.value_raw = self.raw_value(s.solve(self.value_fn))
         if self.value_expr: # Process expression
             with LogicalSolver(env) as s:
                 self.value_raw = s.solve(self.value_expr)
